@@ -39,6 +39,10 @@ func Family(quick bool) []*wm.World {
 		{{CIDR: "10.0.2.0/24"}},
 	}
 	// the last two differ only in the lower end of one range
+	if !quick {
+		// thorough tier: selector peers and a protocol-only port next to the ipBlock family
+		peersets = append(peersets, []wm.NPPeer{{NSSel: wm.ML(wm.NSNameKey, "ns2")}}, []wm.NPPeer{{CIDR: "10.0.0.0/8"}, {Pod: &wm.Sel{}}}, []wm.NPPeer{{CIDR: "0.0.0.0/1"}, {CIDR: "128.0.0.0/1"}})
+	}
 	ports := [][]wm.NPPort{nil, {{HasPort: true, Num: 80}}, {{HasPort: true, Num: 80}, {HasPort: true, Num: 53, Proto: "UDP"}}, {{HasPort: true, Num: 80, End: 90}}, {{HasPort: true, Num: 85, End: 90}}}
 	for ti, t := range topos {
 		res = append(res, &wm.World{WLs: t})
